@@ -35,15 +35,50 @@ FetchVerifyAllowed(ev) ==
   /\ Some(ev.script, LAMBDA v : Eq(ev.seen, v))
   /\ Eq(ev.used, ev.seen)
 
+\* C09, copy_and_verify on a pointer cell: ev.vals[i] is the object at address ev.script[i]. The
+\* verifier gets a copy of the object at ONE of the addresses the cell held (null: a null copy);
+\* an address that is null or whose object does not fit may also end in an abort
+FetchVerifyPtrAllowed(ev) ==
+  \E i \in 1..Len(ev.script) :
+    LET b == ev.script[i] IN
+    IF IsZero(b)
+      THEN ev.out = "abort" \/ (ev.out = "ok" /\ ev.calls = 1 /\ Eq(ev.seen, FromInt(0 - 1)) /\ Eq(ev.used, ev.seen))
+      ELSE IF ToInt(b) + ev.gs > ev.size
+        THEN ev.out = "abort"
+        ELSE ev.out = "ok" /\ ev.calls = 1 /\ Eq(ev.seen, FromInt(ev.vals[i])) /\ Eq(ev.used, ev.seen)
+
 \* C06: a converting load / store whose source is in sandbox memory
 FetchConvAllowed(ev) ==
   \/ ev.out = "ok" /\ Some(ev.script, LAMBDA v : InType(v, ev.bits, ev.signed) /\ Eq(ev.got, v))
   \/ ev.out = "abort" /\ Some(ev.script, LAMBDA v : ~InType(v, ev.bits, ev.signed))
 
+\* C05 / C03: the pointer operated on is itself read from sandbox memory (representation 0 = null)
+BaseOf(b) == IF IsZero(b) THEN Null ELSE ToInt(b)
+FetchPtrBaseAllowed(ev) ==
+  Some(ev.script, LAMBDA b : PtrOpAllowed([op |-> ev.op, base |-> BaseOf(b), s |-> ev.s, n |-> ev.n, size |-> ev.size,
+                                            out |-> ev.out, r |-> ev.r, rnull |-> ev.rnull]))
+\* *p / p-> on a pointer cell: the object designated starts at the address read and lies wholly
+\* inside the sandbox; null and straddling pointees abort
+FetchDerefAllowed(ev) ==
+  Some(ev.script, LAMBDA b : IF IsZero(b) \/ ToInt(b) + ev.gs > ev.size
+                               THEN ev.out = "abort"
+                               ELSE ev.out = "ok" /\ Eq(ev.r, b))
+
+\* C10: memcmp over `num` bytes where num is read from sandbox memory; the sandbox buffer starts
+\* at ev.start, the application buffer is greater from byte ev.diffat on
+FetchBulkAllowed(ev) ==
+  Some(ev.script, LAMBDA v : IF Le(v, FromInt(ev.size - ev.start))
+                               THEN ev.out = "ok" /\ ev.sign = (IF ToInt(v) > ev.diffat THEN -1 ELSE 0)
+                               ELSE ev.out = "abort")
+
 FetchAllowed(ev) ==
   CASE ev.kind = "index" -> FetchIndexAllowed(ev)
+    [] ev.kind = "ptrbase" -> FetchPtrBaseAllowed(ev)
+    [] ev.kind = "deref" -> FetchDerefAllowed(ev)
+    [] ev.kind = "bulk" -> FetchBulkAllowed(ev)
     [] ev.kind = "ptrop" -> FetchPtrOpAllowed(ev)
     [] ev.kind = "verify" -> FetchVerifyAllowed(ev)
+    [] ev.kind = "verifyptr" -> FetchVerifyPtrAllowed(ev)
     [] ev.kind = "conv" -> FetchConvAllowed(ev)
     [] OTHER -> FALSE
 =============================================================================
